@@ -67,6 +67,11 @@ func (e *Engine) hint(name string, s Sort) string {
 func (e *Engine) addStructFields(T types.Type, out map[string]bool) {
 	si := e.u.StructInfo(e.u.SortOf(T))
 	for _, f := range si.fields {
+		if f.ghost {
+			// executable code (allocation, whole-struct stores, external callees) never writes ghost fields:
+			// only ghost-after hooks do, and those are accounted for separately
+			continue
+		}
 		out[e.hint("F_"+TypeKey(T)+"_"+sanitize(f.name), ArrSort(SInt, f.sort))] = true
 	}
 }
@@ -385,6 +390,42 @@ func (e *Engine) externMods(fn *ssa.Function, c *ssa.CallCommon, out map[string]
 }
 
 func (e *Engine) instrMods(fn *ssa.Function, ins ssa.Instruction, out map[string]bool, local func(*ssa.Alloc), depth int) {
+	// ghost hooks attached to this function may write any declared ghost field
+	if !out["$ghosthooks:"+fn.String()] {
+		has := false
+		for k := range e.ghostHooks {
+			if strings.HasPrefix(k, fn.String()+"|") {
+				has = true
+			}
+		}
+		if has {
+			for k, hooks := range e.ghostHooks {
+				if !strings.HasPrefix(k, fn.String()+"|") {
+					continue
+				}
+				for _, h := range hooks {
+					for _, set := range h.Sets {
+						lhs := strings.TrimSpace(strings.TrimPrefix(set.Kind, "set:"))
+						if strings.HasPrefix(lhs, "#") {
+							out["G_"+sanitize(lhs[1:])] = true
+							continue
+						}
+						// x.#f: every ghost field of that name
+						if i := strings.LastIndex(lhs, ".#"); i >= 0 {
+							fname := lhs[i+2:]
+							for key, gs := range e.u.ghostFlds {
+								for _, g := range gs {
+									if g.name == fname {
+										out[e.hint("F_"+key+"_"+sanitize("#"+g.name), ArrSort(SInt, g.sort))] = true
+									}
+								}
+							}
+						}
+					}
+				}
+			}
+		}
+	}
 	if os.Getenv("WV_DEBUG") != "" && !out["*"] {
 		defer func() {
 			if out["*"] {
